@@ -498,6 +498,17 @@ func (h *hist) stepAssignIDs(c *cmodel) {
 		ps = append(ps, p)
 		pb = append(pb, []byte(p))
 	}
+	// often: assign a role to an identity that currently holds it only by delegation
+	if h.rng.Chance(50) {
+		for _, to := range h.ids {
+			for _, rl := range roles {
+				if d := c.Deleg[to][rl]; d != nil && !c.Direct[to][rl] && d.Expiry > h.env.LastTs+3 {
+					role, ps, pb = rl, []string{to}, [][]byte{[]byte(to)}
+					h.r.Count("shape/assign-role-to-its-current-delegate")
+				}
+			}
+		}
+	}
 	ap, keyNo, signers, class := h.adminParam(c)
 	ts := h.nextTs()
 	res, ok := h.commit1(authCode("assignOntIDsToRole", &auth.OntIDsToRoleParam{ContractAddr: c.Addr, AdminOntID: []byte(ap), Role: []byte(role), Persons: pb, KeyNo: keyNo}), signers, ts)
@@ -574,7 +585,7 @@ func (h *hist) stepDelegate(c *cmodel) {
 			from = hs[h.rng.Intn(len(hs))]
 		}
 	}
-	level, period := uint64(1), uint64(h.rng.Range(2, 24))
+	level, period := uint64(1), uint64(h.rng.Range(2, 30))
 	switch shape {
 	case "from-holds-only-by-delegation":
 		if hs := h.holders(c, role, false); len(hs) > 0 {
@@ -618,6 +629,14 @@ func (h *hist) stepDelegate(c *cmodel) {
 	to := h.ids[h.rng.Intn(len(h.ids))]
 	if len(cands) > 0 {
 		to = cands[h.rng.Intn(len(cands))]
+		if h.rng.Chance(50) { // prefer a delegate that already holds some other role directly
+			for _, i := range h.rng.Perm(len(cands)) {
+				if len(c.Direct[cands[i]]) > 0 {
+					to = cands[i]
+					break
+				}
+			}
+		}
 	}
 	class := h.ctlClass()
 	keyNo, signers, class := h.control(from, class)
@@ -1057,7 +1076,7 @@ func main() {
 		"seeded histories of ~30 state-changing steps over 4 registered ONT IDs and 2 contracts (one addressed by its init script, one deployed NeoVM proxy): initContractAdmin, transfer, assignFuncsToRole, assignOntIDsToRole, delegate (shapes: right, delegate-of-delegate, level 0/2/3+, to-already-holds, period 0/1/overflow/2^32), withdraw (root / non-root / none), ontid key add/revoke/ID revoke, time steps landing the clock exactly on expiry and expiry+1; signer classes right / extra / no-signature / wrong keyNo / revoked key / empty; after every step verifyToken is pre-executed for all (contract, caller, fn) with the caller's key plus 5 key-control variants, boundary blocks also carry verifyToken transactions; a case = one verifyToken evaluation, distinct by (model reason, variant, answer, mode, contract)")
 	scratch := vf.Scratch("c41")
 	defer os.RemoveAll(scratch)
-	nHist := vf.N(300, 6000)
+	nHist := vf.N(300, 4000)
 	workers := runtime.NumCPU()
 	if workers > 16 {
 		workers = 16
